@@ -12,6 +12,7 @@ import (
 	"fmt"
 	"os"
 	"runtime"
+	"strconv"
 	"testing"
 	"time"
 )
@@ -156,6 +157,24 @@ func AtomicOps() int { return 0 }
 
 // TimeFromUnixNano returns a time t with t.UnixNano() == ns.
 func TimeFromUnixNano(ns int64) time.Time { return time.Unix(0, ns) }
+
+// SameNumber: do the two JSON number texts denote the same value (integers exactly, otherwise
+// as float64)? Under gosym opaque number tokens are compared through the values they render.
+func SameNumber(a, b []byte) bool {
+	if ia, e1 := strconv.ParseInt(string(a), 10, 64); e1 == nil {
+		if ib, e2 := strconv.ParseInt(string(b), 10, 64); e2 == nil {
+			return ia == ib
+		}
+	}
+	if ua, e1 := strconv.ParseUint(string(a), 10, 64); e1 == nil {
+		if ub, e2 := strconv.ParseUint(string(b), 10, 64); e2 == nil {
+			return ua == ub
+		}
+	}
+	fa, e1 := strconv.ParseFloat(string(a), 64)
+	fb, e2 := strconv.ParseFloat(string(b), 64)
+	return e1 == nil && e2 == nil && fa == fb
+}
 
 // EqualBytes is bytes.Equal (one conjunction term under gosym instead of a forking loop).
 func EqualBytes(a, b []byte) bool { return string(a) == string(b) }
